@@ -151,7 +151,11 @@ XML256TableTranscoder::transcodeTo( const   XMLCh* const    srcData
 
 bool XML256TableTranscoder::canTranscodeTo(const unsigned int toCheck)
 {
-    return (xlatOneTo(toCheck) != 0);
+    // The table only holds BMP code points; don't let the value wrap around
+    if (toCheck > 0xFFFF)
+        return false;
+
+    return (xlatOneTo(XMLCh(toCheck)) != 0);
 }
 
 
